@@ -6,7 +6,7 @@ import jsonpath
 from . import sx as SX
 from . import qgen as Q
 from .common import exc_name, gen_container, sx_to_loc, deep
-from .evalbase import show_matches, decode_matches, text_of, to_sx, attempt  # noqa: F401
+from .evalbase import used_before, show_matches, decode_matches, text_of, to_sx, attempt  # noqa: F401
 
 ID = "C13"
 PROP_FILE = "props/C13.v"
@@ -62,6 +62,8 @@ def impl(case):
     except Exception as e:  # noqa: BLE001
         out["compile"] = ["err", exc_name(e)]
         return out
+    other_ctx = dict(deep(case["ctx"]), k=2, s="zz", names=["c"], t=False) if isinstance(case["ctx"], dict) else None
+    used_before(c, doc, deep(case["ctx"]), other_ctx)
     out["matches"] = attempt(lambda: show_matches(list(c.finditer(doc, filter_context=deep(case["ctx"])))))
     out["values"] = attempt(lambda: [SX.canon(v) for v in c.findall(doc, filter_context=deep(case["ctx"]))])
     out["doc_unchanged"] = SX.canon(doc) == SX.canon(case["doc"])
